@@ -27,7 +27,7 @@ def custom_policy(mask):
 def gen_history(rng, cfg, docgen, ntx=(1, 5), maxops=6, p_cancel=0.1,
                 p_raise=0.05, p_iofault=0.05, p_restart=0.3,
                 update_only=False, schema_changes=False, merges=MERGES,
-                p_delete=0.3):
+                p_delete=0.3, p_bad_add=0.0):
     """Returns a list of ops (JSON-able)."""
     ops = []
     vocab = cfg.vocab
@@ -85,9 +85,22 @@ def gen_history(rng, cfg, docgen, ntx=(1, 5), maxops=6, p_cancel=0.1,
                 elif d < 0.6:
                     ops.append(["del_term", "t", rng.choice(vocab)])
                 elif d < 0.8:
-                    ops.append(["del_query", Q.gen_query(rng, cfg, depth=1, simple=True)])
+                    q = Q.gen_query(rng, cfg, depth=1, simple=True)
+                    e = rng.random()
+                    if e < 0.15:
+                        q = ["andnot", ["every"], q]
+                    elif e < 0.2:
+                        q = ["and", [["every"], q]]
+                    ops.append(["del_query", q])
                 else:
-                    ops.append(["del_uid", rng.randint(1, max(1, docgen.next_uid - 1))])
+                    # the document number comes from the writer's own reader, or (as applications
+                    # do) from a searcher of the committed index
+                    ops.append(["del_uid", rng.randint(1, max(1, docgen.next_uid - 1)), rng.choice(("writer", "index"))])
+            if p_bad_add and rng.random() < p_bad_add and "n" in names:
+                # a document the writer must reject (inadmissible NUMERIC value) - and forget entirely
+                bad = docgen.doc(fields_subset=list(names))
+                bad["n"] = u"not-a-number"
+                ops.append(["bad_add", bad])
         if fault_at is not None:
             ops.append(["raise_if_not_failed"])
         elif end < p_iofault + p_raise:
@@ -292,8 +305,10 @@ class HistActor(object):
                 raise Violation("delete_return_value",
                                 "delete_by_query(%s) returned %r, %d live documents match" % (Q.show(op[1]), n, exp))
         elif kind == "del_uid":
+            via_index = len(op) > 2 and op[2] == "index"
+
             def deluid():
-                r = w.reader()
+                r = self.ix.reader() if via_index else w.reader()
                 try:
                     dn = find_docnum(r, op[1])
                 finally:
@@ -304,6 +319,14 @@ class HistActor(object):
             dn = self._body(deluid, "delete_document")
             if self.failed_in_body:
                 return
+            if via_index:
+                # numbers of the committed generation stay valid for the writer opened on it;
+                # documents this writer added are not visible there (nothing deleted then)
+                if dn is not None:
+                    mw.delete_uids({op[1]})
+                    s.count("deletes")
+                    s.count("deletes_by_index_docnum")
+                return
             exp = mw.delete_uids({op[1]})
             s.count("deletes")
             if exp:
@@ -311,6 +334,17 @@ class HistActor(object):
             if (dn is not None) != bool(exp):
                 raise Violation("delete_visibility", "uid %s: writer.reader() shows it %s, model says %s"
                                 % (op[1], "live" if dn is not None else "absent", "live" if exp else "absent"))
+        elif kind == "bad_add":
+            if "n" not in w.schema.names():
+                return
+            try:
+                w.add_document(**op[1])
+            except (SimAbort, SimKilled, HarnessError):
+                raise
+            except Exception:  # noqa  (rejected, as it must be: nothing of it may survive)
+                s.count("rejected_adds")
+            else:
+                raise HarnessError("add_document accepted n=%r" % (op[1].get("n"),))
         elif kind == "add_field":
             spec = s.cfg.specs[op[1]]
             if op[1] in w.schema.names() or op[1] in s.model.ever_removed:
